@@ -423,3 +423,48 @@ Proof.
     subst i. unfold len. rewrite Z.leb_refl. reflexivity.
   - destruct (chain_ends _ _ _ _ Hc) as [H1 H2]. now rewrite <- H1, <- H2.
 Qed.
+
+(* ------------------------------------------------------------ wf means what C01 says *)
+Lemma chain_reads a ls b : chain a ls b ->
+  reads a (map lbox ls) (map (fun l => len (lleft l)) ls) b.
+Proof.
+  revert a. induction ls as [|l ls IH]; cbn; intros a H; [auto|].
+  destruct H as [-> H]. split; [apply len_nonneg|].
+  exists (lleft l), (lright l). repeat split; auto.
+Qed.
+
+Theorem wf_reads d : wf d -> reads (ddom d) (dboxes d) (doffs d) (dcod d).
+Proof.
+  intros (W1 & W2 & W3 & W4 & W5). rewrite W4, W5, <- W1, <- W2. apply chain_reads, W3.
+Qed.
+
+Lemma reads_scan bs : forall a offs b, reads a bs offs b ->
+  exists ls, scan_layers a bs offs = Ok (b, ls).
+Proof.
+  induction bs as [|bx bs IH]; intros a offs b H; destruct offs as [|off offs]; cbn in H; try contradiction.
+  - subst. cbn. eauto.
+  - destruct H as (Hoff & l & r & -> & Hl & H). cbn [scan_layers].
+    assert (Hr : (0 <=? off) && (off <=? len (l ++ bdom bx ++ r) - len (bdom bx)) = true).
+    { apply andb_true_iff. split; apply Z.leb_le; [lia|]. rewrite !len_app. pose proof (len_nonneg r). lia. }
+    rewrite Hr. cbn [negb].
+    rewrite py_slice_prefix, py_slice_suffix by (pose proof (len_nonneg (bdom bx)); lia).
+    replace (Z.to_nat off) with (length l) by (unfold len in Hl; lia).
+    replace (Z.to_nat (off + len (bdom bx))) with (length (l ++ bdom bx)) by (rewrite app_length; unfold len in *; lia).
+    rewrite firstn_app_exact. rewrite app_assoc, skipn_app_exact.
+    unfold ldom, lcod, lleft, lbox, lright. cbn [fst snd]. rewrite <- app_assoc, ty_eqb_refl.
+    destruct (IH _ _ _ H) as (ls & Hls). rewrite Hls. cbn [bind fst snd]. eauto.
+Qed.
+
+(* the constructor accepts exactly the well-typed requests *)
+Theorem mk_ok_iff dom cod bs offs :
+  (exists d, mk dom cod bs offs = Ok d) <-> (length bs = length offs /\ reads dom bs offs cod).
+Proof.
+  split.
+  - intros (d & H). pose proof (mk_wf _ _ _ _ _ H) as W. destruct (mk_fields _ _ _ _ _ H) as (F1 & F2 & F3 & F4).
+    apply wf_reads in W. rewrite F1, F2, F3, F4 in W. split; [|exact W].
+    unfold mk in H. destruct (negb (len bs =? len offs)) eqn:E; [discriminate|].
+    apply negb_false_iff, Z.eqb_eq in E. unfold len in E. lia.
+  - intros [Hl Hr]. unfold mk. unfold len. rewrite Hl, Z.eqb_refl. cbn [negb].
+    destruct (reads_scan _ _ _ _ Hr) as (ls & Hls). rewrite Hls. cbn [bind fst snd].
+    rewrite ty_eqb_refl. eauto.
+Qed.
